@@ -85,17 +85,16 @@ let () =
       let (fs, rest) = parse_filters (int_of_string nf) rest in
       let src = source_of (parse_nodes n rest) (lister = "1") in
       let node = { d_id = nat_of_int (int_of_string start); d_at = []; d_ann = None } in
-      let res =
-        if lister = "c" then
-          (* the served table is what the caller's own FindPredecessors returns *)
-          find_roots_fp (fuel_for src (nat_of_int n)) (find_preds_custom src src.s_preds fs) (z_of_int (int_of_string limit)) node
-        else find_roots (fuel_for src (nat_of_int n)) src fs (z_of_int (int_of_string limit)) node in
-      (match res with
+      let fpf = if lister = "c" then find_preds_custom src src.s_preds fs
+                (* the served table is what the caller's own FindPredecessors returns *)
+                else find_preds src fs in
+      (match dfs_log (fuel_for src (nat_of_int n)) fpf (z_of_int (int_of_string limit)) [(node, O)] [] [] [] with
        | None -> Printf.printf "%s FUEL\n" id
-       | Some roots ->
+       | Some (roots, calls) ->
          let ids = List.sort_uniq compare (List.map (fun d -> int_of_nat d.d_id) roots) in
-         Printf.printf "%s OK %s\n" id
-           (if ids = [] then "-" else String.concat "," (List.map string_of_int ids)))
+         let show l = if l = [] then "-" else String.concat "," (List.map string_of_int l) in
+         (* roots as a set (rootMap order is Go map order), the FindPredecessors calls in call order *)
+         Printf.printf "%s OK %s %s\n" id (show ids) (show (List.map int_of_nat calls)))
     | id :: "FE" :: n :: limit :: start :: lister :: k :: nf :: rest ->
       (* findRoots with the k-th source operation failing *)
       let n = int_of_string n in
